@@ -21,10 +21,36 @@ fn data(kind: usize, n: usize) -> (Vec<f64>, Vec<f64>) {
     match kind {
         // integer valued: every partial sum is exact
         0 => ((0..n).map(|i| (i % 7) as f64 - 3.0).collect(), (0..n).map(|i| (i % 5) as f64 + 1.0).collect()),
+        // two non-finite contributions of different kinds (and a third, NaN-free variant: products overflowing with both signs): NaN
+        // under every schedule and every association; a worker that is told to stop early by another makes it schedule dependent
+        2 => {
+            let mut a: Vec<f64> = (0..n).map(|i| (i % 7) as f64 - 3.0).collect();
+            let b: Vec<f64> = (0..n).map(|i| (i % 5) as f64 + 1.0).collect();
+            if n >= 2 {
+                a[0] = f64::INFINITY;
+                a[n - 1] = f64::NEG_INFINITY;
+            }
+            if n >= 3 {
+                a[n / 2] = f64::NAN;
+            }
+            (a, b)
+        }
         // cancellation prone: the value depends on the association order, so a completion-order reduction shows
         _ => ((0..n).map(|i| match i % 4 { 0 => 1e16, 1 => 1.0, 2 => -1e16, _ => 3.0 }).collect(), vec![1.0; n]),
     }
 }
+
+/// bits of a result, every NaN mapped to one representative (sign and payload of a NaN are not part of the property)
+fn canon(r: f64) -> u64 {
+    if r.is_nan() {
+        f64::NAN.to_bits()
+    } else {
+        r.to_bits()
+    }
+}
+/// schedules explored per configuration before the enumeration is cut (reported as a cap, never as exhaustive): the unchanged
+/// tree needs 1.5e6 for its largest configuration; code that adds a synchronisation point per element needs astronomically many
+static DFS_CAP: std::sync::atomic::AtomicUsize = std::sync::atomic::AtomicUsize::new(200_000);
 
 const SCHED_DIR: &str = "/verif/target_sched/run/schedules";
 /// shuttle installs its panic hook once per process with the first config it sees: every runner uses the same one
@@ -42,12 +68,12 @@ fn explore(w: usize, a: &[f64], b: &[f64]) -> Result<Vec<u64>, String> {
     let o2 = out.clone();
     let (av, bv) = (a.to_vec(), b.to_vec());
     let res = catch_unwind(AssertUnwindSafe(|| {
-        Runner::new(DfsScheduler::new(None, false), cfg(None)).run(move || {
+        Runner::new(DfsScheduler::new(Some(DFS_CAP.load(Ordering::Relaxed)), false), cfg(None)).run(move || {
             ohsl::verif_shim::set_workers(w);
             let va = Vector::create(av.clone());
             let vb = Vector::create(bv.clone());
             let r = va.dot_f64(&vb);
-            o2.lock().unwrap().push(r.to_bits());
+            o2.lock().unwrap().push(canon(r));
         })
     }));
     match res {
@@ -67,10 +93,10 @@ fn persist_failing(w: usize, a: &[f64], b: &[f64], expect: u64, dir: &std::path:
     }
     let (av, bv) = (a.to_vec(), b.to_vec());
     let _ = catch_unwind(AssertUnwindSafe(|| {
-        Runner::new(DfsScheduler::new(None, false), cfg(Some(dir.to_path_buf()))).run(move || {
+        Runner::new(DfsScheduler::new(Some(DFS_CAP.load(Ordering::Relaxed)), false), cfg(Some(dir.to_path_buf()))).run(move || {
             ohsl::verif_shim::set_workers(w);
             let r = Vector::create(av.clone()).dot_f64(&Vector::create(bv.clone()));
-            assert!(r.to_bits() == expect, "schedule-dependent result");
+            assert!(canon(r) == expect, "schedule-dependent result");
         })
     }));
     let f = dir.join("schedule000.txt");
@@ -87,7 +113,7 @@ fn replay(w: usize, a: &[f64], b: &[f64], schedule: &str) -> Result<u64, String>
             move || {
                 ohsl::verif_shim::set_workers(w);
                 let r = Vector::create(av.clone()).dot_f64(&Vector::create(bv.clone()));
-                o2.lock().unwrap().push(r.to_bits());
+                o2.lock().unwrap().push(canon(r));
             },
             &sched,
         )
@@ -185,6 +211,7 @@ fn main() {
         std::process::exit(if total > 0 { 1 } else { 0 });
     }
 
+    DFS_CAP.store(if tier == "quick" { 200_000 } else { 6_000_000 }, Ordering::Relaxed);
     let wmax: usize = if tier == "quick" { 4 } else { 6 };
     let deadline = if tier == "quick" { 40.0 } else { 1200.0 };
     let mut cap_hit = false;
@@ -193,13 +220,13 @@ fn main() {
         lens.sort();
         lens.dedup();
         for &n in &lens {
-            for kind in 0..2usize {
+            for kind in 0..3usize {
                 if t0.elapsed().as_secs_f64() > deadline {
                     cap_hit = true;
                     break 'outer;
                 }
                 let (a, b) = data(kind, n);
-                let name = format!("all schedules: workers={} length={} data={}", w, n, if kind == 0 { "integer" } else { "cancellation-prone" });
+                let name = format!("all schedules: workers={} length={} data={}", w, n, ["integer", "cancellation-prone", "non-finite (inf, NaN, -inf)"][kind]);
                 let ts = Instant::now();
                 let r1 = explore(w, &a, &b);
                 configs += 1;
@@ -214,6 +241,10 @@ fn main() {
                             machinery.push(format!("{}: two enumerations of the schedules disagree (uncontrolled nondeterminism)", name));
                         }
                         schedules_total += rs.len() as u64;
+                        if rs.len() >= DFS_CAP.load(Ordering::Relaxed) {
+                            cap_hit = true;
+                            eprintln!("[C16] {}: enumeration cut at {} schedules (cap)", name, rs.len());
+                        }
                         if rs.len() > 1 {
                             multi += 1;
                         }
@@ -233,7 +264,12 @@ fn main() {
                             // reassociation bound
                             let mag: f64 = a.iter().zip(b.iter()).map(|(x, y)| (x * y).abs()).sum();
                             let got = f64::from_bits(expect);
-                            if !((got - seq).abs() <= 4.0 * (n.max(1) as f64) * f64::EPSILON * mag) {
+                            if seq.is_nan() {
+                                if !got.is_nan() {
+                                    detail = Some(format!("result {} but the sequential dot product is NaN", got));
+                                    expect = canon(seq);
+                                }
+                            } else if !((got - seq).abs() <= 4.0 * (n.max(1) as f64) * f64::EPSILON * mag) {
                                 detail = Some(format!("result {} differs from the sequential dot product {} by more than reassociation allows", got, seq));
                                 expect = seq.to_bits();
                             }
@@ -283,7 +319,7 @@ fn main() {
         "property_id": "C16", "tier": tier, "level": "model_checking",
         "coverage": {
             "evaluations": configs, "distinct_nontrivial": nontrivial,
-            "rule": format!("E3: shuttle DfsScheduler enumerates every interleaving of the real dot_f64 (std::thread::scope / num_cpus shadowed under --cfg ohsl_verif) for workers 1..{} x lengths {{0,1,W-1,W,W+1,2W+1,4W+3}} x {{integer, cancellation-prone}} data; the set of results over all schedules must be a singleton, exact on integer data. Non-trivial: more than one worker and more elements than workers.", wmax),
+            "rule": format!("E3: shuttle DfsScheduler enumerates every interleaving of the real dot_f64 (std::thread::scope / num_cpus shadowed under --cfg ohsl_verif) for workers 1..{} x lengths {{0,1,W-1,W,W+1,2W+1,4W+3}} x {{integer, cancellation-prone, non-finite (inf, NaN, -inf)}} data; the set of results over all schedules must be a singleton, exact on integer data. Non-trivial: more than one worker and more elements than workers.", wmax),
             "samples": samples, "states": schedules_total.max(1), "transitions": schedules_total.max(1), "traces_validated_against_impl": schedules_total,
             "exhaustive": !cap_hit, "cap_hit": cap_hit, "schedules": schedules_total, "configurations": configs, "configurations_with_more_than_one_schedule": multi, "spaces": spaces,
             "classes": {}, "numeric_margins": {}
